@@ -28,6 +28,13 @@ Definition rule_eqb (a b : rule) : bool :=
   && csel_eqb (r_cidr a) (r_cidr b) && csel_eqb (r_local a) (r_local b)
   && str_eqb (r_ca_name a) (r_ca_name b) && str_eqb (r_ca_sha a) (r_ca_sha b).
 
+(* the documented guard, evaluated on the AddRule calls the implementation made: at least one non-empty selector among
+   host / group(s) / cidr / local_cidr / ca_name / ca_sha *)
+Definition has_selector (r : rule) : bool :=
+  nonempty (r_host r) || nonempty (r_groups r)
+  || negb (csel_eqb (r_cidr r) CNone) || negb (csel_eqb (r_local r) CNone)
+  || nonempty (r_ca_name r) || nonempty (r_ca_sha r).
+
 Definition is_ok {A} (r : res A) : bool := match r with ROk _ => true | _ => false end.
 
 Definition check_case (c : case) : list N :=
@@ -39,6 +46,8 @@ Definition check_case (c : case) : list N :=
       let m := rules_from_config pp tbl in
       (* a panic is never an acceptable way of refusing a configuration *)
       flag 2 (negb (rec_class =? 2)) ++ flag 2 (negb (fw_class =? 2))
+      (* loaded => every rule handed to AddRule has a selector (a rule without one would admit every host) *)
+      ++ (if rec_class =? 0 then flag 2 (forallb has_selector rec_rules) else [])
       (* loaded or refused, as the text says ("loads only if ..." is the property, so a difference is also a failing input) *)
       ++ flag 1 (Bool.eqb (is_ok m) (rec_class =? 0)) ++ flag 2 (Bool.eqb (is_ok m) (rec_class =? 0))
       (* the rules that were loaded are the ones the text denotes: a functional characterisation, so a difference is a
